@@ -83,7 +83,7 @@ ALLOWED = {
     "p": set(), "h1": set(), "h2": set(), "h3": set(), "h4": set(), "h5": set(), "h6": set(), "hr": set(),
     "pre": set(), "code": {"class"}, "blockquote": set(), "ul": set(), "ol": {"start"}, "li": set(),
     "br": set(), "em": set(), "strong": set(), "s": set(), "a": {"href", "title"}, "img": {"src", "alt", "title"},
-    "cb": set(), "ci": set(), "cc": set(),
+    "cb": set(), "ci": set(), "cc": set(), "cp": set(),
 }
 ENT = {b"&amp;": b"&", b"&lt;": b"<", b"&gt;": b">", b"&quot;": b'"'}
 
